@@ -8,6 +8,7 @@ element (`hj`), which `pathJoin_ignores_empty` proves of the model of `path.Join
 -/
 import ConfModel.Lemmas.Library
 import ConfModel.Lemmas.LibraryAccept
+import ConfModel.Lemmas.LibraryNames
 namespace ConfModel.Props.C07
 open ConfModel.Config ConfModel.Library
 
@@ -82,17 +83,69 @@ theorem openAxes_spec (s : Suite) (c : Case) :
       (if s.protocols.length ≠ 1 then ["Protocol:" ++ c.p.str] else []) ++
       (if s.codecs.length ≠ 1 then ["Codec:" ++ c.c.str] else []) ++
       (if s.comps.length ≠ 1 then ["Compression:" ++ c.z.str] else []) ++
-      (if s.reliesOnTls = false then ["TLS:" ++ boolStr c.tls] else []) := by
-  have := namePrefix_eq s c
-  unfold namePrefix at this
-  simp only [List.cons_append, List.nil_append, List.cons.injEq, true_and] at this
-  rw [← this]
+      (if s.reliesOnTls = false then ["TLS:" ++ boolStr c.tls] else []) :=
+  openAxes_eq s c
 
 /-- Full names are unique (for any `join`: insertion rejects a name that is already present). -/
 theorem names_unique (join : List String → String)
     (suites : List Suite) (inCases : Case → Bool) (mode : Mode) (lib : List Perm)
     (h : newLibrary join suites inCases mode = .ok lib) : (lib.map (·.fullName)).Nodup :=
   (newLibrary_ok join suites inCases mode lib h).2.1
+
+/-- With the modelled `path.Join`, the '/'-separated segments of a full name are: the segments of
+the suite name, one segment per open axis, the segments of the test name (names being clean:
+no empty, `.` or `..` segment). -/
+theorem full_name_segments (s : Suite) (c : Case) (t : Test) (hs : CleanName s.name) (ht : CleanName t.name) :
+    segments (specName pathJoin s c t) =
+      segments s.name ++ (openAxes s c).map String.toList ++ segments t.name :=
+  segments_specName s c t hs ht
+
+/-- **Full names identify definitions.** Under `NamesClean` (every suite and test name clean; no
+suite name a segment-wise proper prefix of another) and distinctly named suites, two full names
+are equal only for the same suite, the same open-axes projection of the config case and the same
+test name. -/
+theorem names_injective (suites : List Suite) (hn : NamesClean suites) (hd : (suites.map (·.name)).Nodup)
+    (s₁ : Suite) (hs₁ : s₁ ∈ suites) (s₂ : Suite) (hs₂ : s₂ ∈ suites) (c₁ c₂ : Case)
+    (t₁ : Test) (ht₁ : t₁ ∈ s₁.tests) (t₂ : Test) (ht₂ : t₂ ∈ s₂.tests)
+    (h : specName pathJoin s₁ c₁ t₁ = specName pathJoin s₂ c₂ t₂) :
+    s₁ = s₂ ∧ openAxes s₁ c₁ = openAxes s₂ c₂ ∧ t₁.name = t₂.name :=
+  specName_inj suites hn hd s₁ hs₁ s₂ hs₂ c₁ c₂ t₁ ht₁ t₂ ht₂ h
+
+/-- … and the open-axes projection fixes the config case among those the suite admits with the
+same stream type (the pinned axes have one admitted value, the flags are the suite's). -/
+theorem names_injective_case (s : Suite) (mode : Mode) (c₁ c₂ : Case)
+    (h1 : Admits s mode c₁) (h2 : Admits s mode c₂) (hst : c₁.s = c₂.s)
+    (h : openAxes s c₁ = openAxes s c₂) : c₁ = c₂ :=
+  case_eq_of_axes s c₁ c₂ ((admits_iff _ _ _).1 h1).2 ((admits_iff _ _ _).1 h2).2 hst h
+
+/-- Hence with clean names and no duplicated definition (suites named distinctly, tests named
+distinctly inside a suite) the name clause of `WellFormed` needs no separate check: no two
+specified permutations spell the same name. -/
+theorem names_distinct_of_clean (suites : List Suite) (cases : List Case) (mode : Mode)
+    (hn : NamesClean suites) (hd : DefinitionsDistinct suites) (hc : cases.Nodup) :
+    ((specList pathJoin suites cases mode).map (·.fullName)).Nodup :=
+  names_specList_nodup suites cases mode hn hd hc
+
+/-- **The "duplicate definition" error only fires on genuinely duplicated definitions**: with
+clean names, if `newTestCaseLibrary` fails with `duplicate definition for <name>` then two suites
+or two tests of one suite have the same name, or a relevant list names twice the value of a config
+case that carries a permutation (which defines each of its permutations twice). -/
+theorem duplicate_error_genuine (suites : List Suite) (cases : List Case) (mode : Mode) (n : String)
+    (hn : NamesClean suites)
+    (h : newLibrary pathJoin suites (inSet cases) mode = .error (.duplicateName n)) :
+    ¬ DefinitionsDistinct suites ∨
+      ∃ s ∈ suites, ∃ c ∈ cases, Admits s mode c ∧ (∃ t ∈ s.tests, t.st = c.s) ∧ ¬ NoRepeat s c := by
+  by_cases hd : DefinitionsDistinct suites
+  · right
+    apply Classical.byContradiction
+    intro hex
+    apply newLibrary_dup pathJoin suites _ mode n h
+    apply names_allPerms_nodup suites _ mode hn hd
+    intro s hs hadm c hc1 hc2 hext
+    apply Classical.byContradiction
+    intro hnr
+    exact hex ⟨s, hs, c, by simpa [inSet] using hc2, (admits_iff s mode c).2 ⟨hadm, hc1⟩, hext, hnr⟩
+  · exact Or.inl hd
 
 /-- The request carries the case's version, protocol, codec and compression; the server
 certificate placeholder iff the case uses TLS, client credentials iff it uses client certificates
@@ -251,5 +304,38 @@ example : errOf (newLibrary simpleJoin [repeatSuite] (inSet exampleCases) .clien
 
 example : (newLibrary simpleJoin [repeatSuite] (inSet (exampleCases.take 2)) .client).toOption.isSome = true ∧
     WellFormed simpleJoin [repeatSuite] (exampleCases.take 2) .client := by decide
+
+/-! non-vacuity of `names_injective` / `duplicate_error_genuine`, and why `NamesClean` is needed -/
+
+example : NamesClean [exampleSuite] ∧ DefinitionsDistinct [exampleSuite] := by decide
+
+/-- the config case all of whose axes the suites below pin -/
+def pinnedCase : Case := ⟨.v1, .connect, .proto, .identity, .unary, true, false, false, false, .unspec⟩
+
+def pinnedSuite (name : String) (tests : List String) : Suite :=
+  { name := name, mode := .unspec, protocols := [.connect], versions := [.v1], codecs := [.proto],
+    comps := [.identity], cvm := .unspec, reliesOnTls := true, reliesOnCerts := false,
+    reliesOnGet := false, reliesOnLimit := false,
+    tests := tests.map fun n => { name := n, st := .unary, service := "", method := "", rawRequest := false,
+                                  rawResponse := false, hasExpected := false } }
+
+/-- a genuinely duplicated definition (two tests named `x`): the error fires, `NamesClean` holds -/
+example : NamesClean [pinnedSuite "S" ["x", "x"]] ∧ ¬ DefinitionsDistinct [pinnedSuite "S" ["x", "x"]] ∧
+    errOf (newLibrary pathJoin [pinnedSuite "S" ["x", "x"]] (inSet [pinnedCase]) .client) =
+      some (.duplicateName "S/x") := by decide
+
+/-- names `path.Clean` rewrites collide although no definition is duplicated: `a/../b` and `b` -/
+example : DefinitionsDistinct [pinnedSuite "S" ["a/../b", "b"]] ∧ ¬ NamesClean [pinnedSuite "S" ["a/../b", "b"]] ∧
+    NoRepeat (pinnedSuite "S" ["a/../b", "b"]) pinnedCase ∧
+    errOf (newLibrary pathJoin [pinnedSuite "S" ["a/../b", "b"]] (inSet [pinnedCase]) .client) =
+      some (.duplicateName "S/b") := by decide
+
+/-- a suite name that is a segment-wise prefix of another: test `b/c` of suite `a` and test `c` of
+suite `a/b` are both `a/b/c`, although every name is clean and no definition is duplicated -/
+example :
+    let suites := [pinnedSuite "a" ["b/c"], pinnedSuite "a/b" ["c"]]
+    DefinitionsDistinct suites ∧ (∀ s ∈ suites, CleanName s.name ∧ ∀ t ∈ s.tests, CleanName t.name) ∧
+    ¬ NamesClean suites ∧
+    errOf (newLibrary pathJoin suites (inSet [pinnedCase]) .client) = some (.duplicateName "a/b/c") := by decide
 
 end ConfModel.Props.C07
